@@ -54,7 +54,7 @@ def run_rules(overlay, pids):
         mod = importlib.import_module("pvf.rules.%s" % pid.lower())
         chk = Check(pid, "quick", 0, quiet=True)
         try:
-            mod.run(prog, chk)
+            __import__('pvf.rules', fromlist=['run_property']).run_property(pid, prog, chk)
             if chk.violations:
                 res[pid] = ("VIOLATION", ["%s @ %s: %s" % (v["key"], v["where"], v["detail"][:160]) for v in chk.violations])
             else:
